@@ -190,6 +190,15 @@ theorem linkInv_nak (now : Nat) (l : FLink F) (seq : Int) (h : LinkInv l) :
 theorem linkInv_absorb (l : FLink F) (x : SLink F) (h : LinkInv l) : LinkInv (l.absorb x) :=
   ⟨h.log, h.wlo, h.whi, h.inf, h.queue⟩
 
+/-- A link freshly constructed by a reload (`connect_uplink` → `new_registering`). -/
+theorem linkInv_newUplink (connId addr now : Nat) : LinkInv (FLink.newUplink connId addr now : FLink F) := by
+  have hI := wconsts.2.2.1
+  refine ⟨logInv_empty rfl rfl, ?_, ?_, Int.le_refl _, by intro it hit; cases hit⟩
+  · show 1000 ≤ WINDOW_INIT
+    omega
+  · show WINDOW_INIT ≤ 60000
+    omega
+
 /-- **`LinkInv` survives every per-link operation**, at every clock, in every arm and mode. -/
 theorem linkInv_closed (now : Nat) (arm : Arm) (classic : Bool) : Closed now arm classic (LinkInv (F := F)) where
   soft := linkInv_soft now
@@ -204,6 +213,7 @@ theorem linkInv_closed (now : Nat) (arm : Arm) (classic : Bool) : Closed now arm
   gack := fun _ => linkInv_gack
   nak := fun _ l seq h => linkInv_nak now l seq h
   select := fun _ _ _ _ h p hp => linkInv_absorb p.1 p.2 (h p.1 (List.of_mem_zip hp).1)
+  fresh := fun _ id a => linkInv_newUplink id a now
 
 /-- A freshly constructed link (`SrtlaConnection::new_registering`). -/
 theorem linkInv_new (connId now : Nat) : LinkInv (FLink.newRegistering connId now : FLink F) := by
